@@ -111,3 +111,48 @@ Proof.
   intros p fuel t s. rewrite <- den_dec_norm, norm_presc_rop, (proj1 emitted_plain_match).
   exact (den_dec_presc schema_plain p plain_void_variants_zero plain_wf fuel t s).
 Qed.
+
+(* ---------- decode_async ---------- *)
+Theorem emitted_async_match :
+  aops_match schema_plain false emitted_plain_async /\ aops_match schema_keep true emitted_keep_async /\
+  length emitted_plain_async = length schema_plain /\ length emitted_keep_async = length schema_keep.
+Proof. repeat split; vm_compute; reflexivity. Qed.
+
+Lemma aops_match_row S ck em n r d :
+  aops_match S ck em -> nth_error em n = Some r -> lookup S n = Some d -> norm_arow r = presc_arow S ck d.
+Proof.
+  intros Hm Hr Hd.
+  assert (E : nth_error (map norm_arow em) n = Some (norm_arow r)) by (rewrite nth_error_map, Hr; reflexivity).
+  rewrite Hm in E. rewrite nth_error_map in E. unfold lookup in Hd. rewrite Hd in E. cbn in E. injection E as E. symmetry. exact E.
+Qed.
+
+(* the async decoder of every struct / union of either configuration: the arms of the sync decoder read with .await, no
+   length calls, no countdown, NO retention statement even where the sync decoder of the keep build has them *)
+Theorem emitted_async_arms : forall n r ck em S,
+  (ck = false /\ em = emitted_plain_async /\ S = schema_plain) \/ (ck = true /\ em = emitted_keep_async /\ S = schema_keep) ->
+  nth_error em n = Some r ->
+  (forall fs keep ia, lookup S n = Some (DStruct fs keep ia) ->
+     exists d, r = AStruct d /\ norm_ds d = presc_dstruct_async S ck fs keep /\
+               ds_unk d = false /\ ds_push d = false /\ ds_skip_all d = false /\ ds_count d = false) /\
+  (forall vs vo keep, lookup S n = Some (DUnion vs vo keep) ->
+     exists d, r = AUnion d /\ norm_du d = presc_dunion_async S vs vo /\ du_unknown d = false).
+Proof.
+  intros n r ck em S Hc Hr.
+  assert (Hrow : forall d, lookup S n = Some d -> norm_arow r = presc_arow S ck d).
+  { intros d Hd. destruct emitted_async_match as (Hp & Hk & _).
+    destruct Hc as [(-> & -> & ->)|(-> & -> & ->)]; [exact (aops_match_row _ _ _ n r d Hp Hr Hd)|exact (aops_match_row _ _ _ n r d Hk Hr Hd)]. }
+  split.
+  - intros fs keep ia Hd. specialize (Hrow _ Hd). cbn [presc_arow] in Hrow.
+    destruct r as [|d|d| |d]; try discriminate Hrow. cbn [norm_arow] in Hrow.
+    assert (E : norm_ds d = presc_dstruct_async S ck fs keep) by (exact (f_equal (fun x => match x with AStruct y => y | _ => norm_ds d end) Hrow)).
+    exists d. split; [reflexivity|]. split; [exact E|].
+    repeat split.
+    + exact (f_equal ds_unk E).
+    + exact (f_equal ds_push E).
+    + exact (f_equal ds_skip_all E).
+    + exact (f_equal ds_count E).
+  - intros vs vo keep Hd. specialize (Hrow _ Hd). cbn [presc_arow] in Hrow.
+    destruct r as [|d|d| |d]; try discriminate Hrow. cbn [norm_arow] in Hrow.
+    assert (E : norm_du d = presc_dunion_async S vs vo) by (exact (f_equal (fun x => match x with AUnion y => y | _ => norm_du d end) Hrow)).
+    exists d. split; [reflexivity|]. split; [exact E|]. exact (f_equal du_unknown E).
+Qed.
